@@ -1458,7 +1458,8 @@ class AnsiString:
             if count > 0:
                 count -= 1
             # An empty search string matches before every character (like str): step over one character
-            idx = obj._s.find(old, idx + len(new) + (0 if old else 1))
+            # (continue behind the text that was inserted: a str replacement with escape codes inserts less than len(new))
+            idx = obj._s.find(old, idx + len(replace._s) + (0 if old else 1))
 
         if inplace:
             self._s = obj._s
